@@ -186,7 +186,10 @@ def run_shards(prop, specs, shard_timeout, max_parallel=None, env_extra=None):
                 with open(sp, "w") as f:
                     json.dump(spec, f)
                 lf = open(lp, "wb")
-                p = subprocess.Popen([PY, os.path.join(VERIF_ROOT, "check.py"), prop, "--shard", sp, op],
+                # every fourth shard runs under `python -O` (assert statements are compiled away): what the library does must
+                # not depend on work done inside an assert
+                pyflags = ["-O"] if i % 4 == 3 else []
+                p = subprocess.Popen([PY] + pyflags + [os.path.join(VERIF_ROOT, "check.py"), prop, "--shard", sp, op],
                                      stdout=lf, stderr=subprocess.STDOUT, stdin=subprocess.DEVNULL,
                                      start_new_session=True, env=env, cwd=VERIF_ROOT)
                 lf.close()
@@ -361,6 +364,8 @@ def shard_main(mod, spec_path, out_path):
         # a crash of the harness is not a verdict about the repository
         traceback.print_exc()
         sys.exit(3)
+    if sys.flags.optimize and isinstance(res, dict):
+        res.setdefault("counters", {})["shards_run_under_python_-O"] = 1
     tmp = out_path + ".tmp"
     with open(tmp, "w") as f:
         json.dump(res, f, default=repr)
